@@ -148,3 +148,90 @@ package model
 //@   ensures [same_order] fresh(result) && fresh(*result) && len(*result) == len(*w) && forall i int :: 0 <= i && i < len(*w) ==> (*result)[i] == (*w)[i].Criterion
 //@   loop 1 invariant [ctx] fresh(result) && len(result) == len(*w)
 //@   loop 1 invariant [copied] forall i int :: 0 <= i && i < iter ==> result[i] == (*w)[i].Criterion
+
+// ---- criterion.go
+
+//@ func (*Criteria).FindWeight
+//@   property C07 C15 C20
+//@   panics_iff [missing] !(criterion.Id in *weights)
+//@   ensures [value] result == (*weights)[criterion.Id]
+
+//@ func (*Criteria).ZipWithWeights
+//@   property C07 C15 C20
+//@   panics_iff [missing] exists i int :: 0 <= i && i < len(*c) && !((*c)[i].Id in *weights)
+//@   ensures [zipped] fresh(result) && fresh(*result) && len(*result) == len(*c)
+//@             && forall i int :: 0 <= i && i < len(*c) ==> (*result)[i].Criterion == (*c)[i] && (*result)[i].Weight == (*weights)[(*c)[i].Id]
+//@   loop 1 invariant [ctx] fresh(weightedCriteria) && len(weightedCriteria) == len(*c)
+//@   loop 1 invariant [zipped] forall i int :: 0 <= i && i < iter ==> (*c)[i].Id in *weights && weightedCriteria[i].Criterion == (*c)[i] && weightedCriteria[i].Weight == (*weights)[(*c)[i].Id]
+
+//@ func (*Criteria).SortByWeights
+//@   property C07 C15 C02
+//@   panics_iff [missing] exists i int :: 0 <= i && i < len(*c) && !((*c)[i].Id in weights)
+//@   ensures [len_is_criteria] fresh(result) && fresh(*result) && len(*result) == len(*c)
+//@   ensures [members] forall k int :: 0 <= k && k < len(*result) ==> exists j int :: 0 <= j && j < len(*c) && (*result)[k].Criterion == (*c)[j] && (*result)[k].Weight == weights[(*c)[j].Id]
+//@   ensures [all_present] forall j int :: 0 <= j && j < len(*c) ==> exists k int :: 0 <= k && k < len(*result) && (*result)[k].Criterion == (*c)[j]
+//@   ensures [ascending] forall i int, j int :: 0 <= i && i < j && j < len(*result) ==> (*result)[i].Weight <= (*result)[j].Weight
+//@   loop 1 invariant [ctx] fresh(result) && len(result) == len(*c)
+//@   loop 1 invariant [filled] forall i int :: 0 <= i && i < iter ==> (*c)[i].Id in weights && result[i].Criterion == (*c)[i] && result[i].Weight == weights[(*c)[i].Id]
+
+//@ func (*Criteria).Add
+//@   property C07 C18
+//@   panics_iff [duplicate] exists k int :: 0 <= k && k < len(*c) && (*c)[k].Id == criterion.Id
+//@   ensures [appended] len(result) == len(*c) + 1 && result[len(*c)] == *criterion && forall k int :: 0 <= k && k < len(*c) ==> result[k] == (*c)[k]
+//@   loop 1 invariant [none] forall k int :: 0 <= k && k < iter ==> (*c)[k].Id != criterion.Id
+
+//@ func (*Criteria).Validate
+//@   property C20 C07
+//@   panics_iff [duplicate_or_bad_range] (exists i int, j int :: 0 <= i && i < j && j < len(*c) && (*c)[i].Id == (*c)[j].Id)
+//@             || (exists i int :: 0 <= i && i < len(*c) && (*c)[i].ValuesRange != nil && (*c)[i].ValuesRange.Max <= (*c)[i].ValuesRange.Min)
+//@   loop 1 invariant [seen] forall j int :: 0 <= j && j < iter ==> (*c)[j].Id in criteriaSet
+//@   loop 1 invariant [only] forall k string :: k in criteriaSet ==> exists j int :: 0 <= j && j < iter && (*c)[j].Id == k
+//@   loop 1 invariant [distinct] forall i int, j int :: 0 <= i && i < j && j < iter ==> (*c)[i].Id != (*c)[j].Id
+//@   loop 1 invariant [ranges] forall i int :: 0 <= i && i < iter && (*c)[i].ValuesRange != nil ==> (*c)[i].ValuesRange.Max > (*c)[i].ValuesRange.Min
+//@   loop 1 invariant [ctx] fresh(criteriaSet) && criteriaSet != nil
+
+// ---- restricting / extending alternatives
+
+//@ pred restrictedTo(nw AlternativeWithCriteria, od AlternativeWithCriteria, cs []Criterion) =
+//@      nw.Id == od.Id
+//@   && (forall k int :: 0 <= k && k < len(cs) ==> cs[k].Id in nw.Criteria && nw.Criteria[cs[k].Id] == od.Criteria[cs[k].Id])
+//@   && (forall q string :: q in nw.Criteria ==> exists k int :: 0 <= k && k < len(cs) && cs[k].Id == q)
+
+//@ func (*AlternativeWithCriteria).WithCriteriaOnly
+//@   property C07 C15
+//@   panics_iff [missing] exists k int :: 0 <= k && k < len(*criteria) && !((*criteria)[k].Id in a.Criteria)
+//@   ensures [restricted] fresh(result) && fresh(result.Criteria) && restrictedTo(*result, *a, *criteria)
+//@   loop 1 invariant [ctx] fresh(newCriteria) && newCriteria != nil
+//@   loop 1 invariant [kept] forall k int :: 0 <= k && k < iter ==> (*criteria)[k].Id in a.Criteria && (*criteria)[k].Id in newCriteria && newCriteria[(*criteria)[k].Id] == a.Criteria[(*criteria)[k].Id]
+//@   loop 1 invariant [only] forall q string :: q in newCriteria ==> exists k int :: 0 <= k && k < iter && (*criteria)[k].Id == q
+
+//@ func PreserveCriteriaForAlternatives
+//@   property C07 C15
+//@   panics_iff [missing] exists i int, k int :: 0 <= i && i < len(*alternatives) && 0 <= k && k < len(*criteria) && !((*criteria)[k].Id in (*alternatives)[i].Criteria)
+//@   ensures [shape] fresh(result) && fresh(*result) && len(*result) == len(*alternatives)
+//@   ensures [restricted] forall i int :: 0 <= i && i < len(*alternatives) ==> restrictedTo((*result)[i], (*alternatives)[i], *criteria) && fresh((*result)[i].Criteria)
+//@   loop 1 invariant [ctx] fresh(result) && len(result) == len(*alternatives)
+//@   loop 1 invariant [present] forall i int, k int :: 0 <= i && i < iter && 0 <= k && k < len(*criteria) ==> (*criteria)[k].Id in (*alternatives)[i].Criteria
+//@   loop 1 invariant [restricted] forall i int :: 0 <= i && i < iter ==> restrictedTo(result[i], (*alternatives)[i], *criteria) && fresh(result[i].Criteria)
+
+// ---- bias listener interface: abstract predicates and method contracts (C07)
+// coversId(l, p, id): the method parameters p (of the method l listens for) hold what the method needs for criterion id.
+// accepts(l, x, id):  x is an addition for criterion id that l.Merge takes.
+//@ spec coversId(l BiasListener, p MethodParameters, id string) bool
+//@ spec accepts(l BiasListener, x MethodParameters, id string) bool
+
+//@ pred hasValues(a []AlternativeWithCriteria, c []Criterion) = forall i int, k int :: 0 <= i && i < len(a) && 0 <= k && k < len(c) ==> c[k].Id in a[i].Criteria
+//@ pred coversAll(l BiasListener, p MethodParameters, c []Criterion) = forall k int :: 0 <= k && k < len(c) ==> coversId(l, p, c[k].Id)
+//@ pred coherent(l BiasListener, d DecisionMakingParams) =
+//@      distinctCriteria(d.Criteria) && hasValues(d.ConsideredAlternatives, d.Criteria) && hasValues(d.NotConsideredAlternatives, d.Criteria)
+//@   && coversAll(l, d.MethodParameters, d.Criteria)
+
+//@ ifacemethod BiasListener.OnCriteriaRemoved
+//@   requires coversAll(self, params, *leftCriteria)
+//@   ensures coversAll(self, result, *leftCriteria)
+//@ ifacemethod BiasListener.OnCriterionAdded
+//@   requires coversId(self, params, referenceCriterion.Id)
+//@   ensures accepts(self, result, criterion.Id)
+//@ ifacemethod BiasListener.Merge
+//@   ensures forall q string :: coversId(self, params, q) ==> coversId(self, result, q)
+//@   ensures forall q string :: accepts(self, addition, q) ==> coversId(self, result, q)
